@@ -147,8 +147,8 @@ pub fn run(ctx: &Ctx) -> Outcome {
         let ndev = (4 * par + 3).max(19);
         let kdev: usize = tier.pick(2, 3);
         let nbfs = tier.pick(24, 64).max(ndev);
-        // very long single calls (33 and 65 blocks) for small blocks
-        let very_long: Vec<usize> = if bs <= 16 { vec![33, 65] } else { vec![] };
+        // very long single calls (33 .. 257 blocks; thorough to 1025) for small blocks
+        let very_long: Vec<usize> = if bs <= 16 { tier.pick(vec![33, 65, 129, 257], vec![33, 65, 129, 257, 513, 1025]) } else { vec![] };
         let ndata = nbfs.max(very_long.iter().copied().max().unwrap_or(0));
         for fe in block_frontends(cfg, fam, *dir) {
             let g = fe.gran;
@@ -180,12 +180,12 @@ pub fn run(ctx: &Ctx) -> Outcome {
                     rep.count("composition_schedules", (1..=ncomp).map(|n| 2 * 3u64.pow(n as u32 - 1)).sum());
                     // (1b) the same compositions through a CALLER-SUPPLIED closure (`*_with_backend` / `process_with_backend`):
                     // full groups via *_par_blocks, remainder block by block (mode 1) or via *_tail_blocks if non-empty (mode 2)
-                    let closure_ok = fe.max_closure >= 1;
+                    let closure_ok = !fe.closures.is_empty();
                     if closure_ok {
                         for n in 1..=ncomp.max(ndev.min(2 * par + 3)) {
                             let comps: Vec<Vec<usize>> = if n <= ncomp { compositions(n) } else { let mut v = vec![vec![n], vec![1, n - 1], vec![n - 1, 1]]; if n > par { v.push(vec![par, n - par]); } v };
                             for comp in comps {
-                                for mode in [1u8, 2] {
+                                for mode in fe.closures.iter().copied().filter(|c| *c != 9) {
                                     let pieces: Vec<P> = comp.iter().map(|&k| pc(k * g, mode)).collect();
                                     rep.case(|| {
                                         let got = (fe.run)(key, &iv, &data[..n * g], &pieces, &pre)?;
